@@ -415,6 +415,20 @@ def run(ctx: Ctx) -> None:
             arrivals[j] = dataclasses.replace(b, s=a.s, note="swapped-s")
             swapped = True
             ctx.fault("swap-s-pair", i, j)
+    elif faults and ec.cofactor == 1 and ch.chance(1, 6, "relay.replay?"):
+        # a signature replayed under its key over ANOTHER message: the one member that does not verify shares key and
+        # signature with a member that does -- which, half of the time, sits somewhere in front of it in the batch
+        victim = ch.draw(len(arrivals), "relay.victim")
+        original = arrivals[victim]
+        other = ch.nbytes(len(original.msg), "replay.msg")
+        if other != original.msg:
+            arrivals[victim] = replace(original, msg=other, raw=None, note="msg:replayed-signature")
+            if ch.draw(2, "replay.keep-original"):
+                arrivals.insert(ch.draw(victim + 1, "replay.original-at"), original)
+                victim += 1
+            ctx.fault("replay-signature-over-another-message")
+        else:
+            victim = -1
     elif faults and ec.cofactor == 1 and ch.chance(2, 3, "relay.corrupt?"):
         victim = ch.draw(len(arrivals), "relay.victim")
         arrivals[victim] = _corrupt(w, arrivals[victim], signers)
